@@ -1,9 +1,9 @@
 \* trace validation against the code as pinned (both Fixed* constants FALSE)
 CONSTANTS
-  AllCells = TRUE
   FixedWindowRaw = FALSE
   FixedWatchdogRestart = FALSE
 SPECIFICATION TraceSpec
 INVARIANT ObservedFrame
 POSTCONDITION TraceAccepted
 CHECK_DEADLOCK FALSE
+VIEW TraceView
